@@ -135,6 +135,9 @@ def vector_cases(ctx):
         # the validation switch does not govern normalisation (that is `norm`, default True)
         entries += [('UnitQuaternion(array,check=False)', lambda x: sm.UnitQuaternion(x, check=False).vec), ('UnitQuaternion(list,check=False)', lambda x: sm.UnitQuaternion(x.tolist(), check=False).vec),
                     ('UnitQuaternion(s,v,check=False)', lambda x: sm.UnitQuaternion(x[0], x[1:], check=False).vec), ('UnitQuaternion(tuple)', lambda x: sm.UnitQuaternion(tuple(x.tolist())).vec)]
+        # the same normalising method on the subclass: a UnitQuaternion object built with the documented norm=False option holds the raw numbers
+        entries += [('UnitQuaternion(norm=False).unit', lambda x: sm.UnitQuaternion(x, norm=False, check=False).unit().vec),
+                    ('UnitQuaternion(s,v,norm=False).unit', lambda x: sm.UnitQuaternion(x[0], x[1:], norm=False, check=False).unit().vec)]
         for site, f in entries:
             cid = 'C14/%s/%s/%s' % (site, dn, mn)
             if not ctx.want(cid):
